@@ -283,7 +283,7 @@ def run(ctx):
                 "evaluations = hostile answers + planted answers delivered; distinct non-trivial = (kind, step answered, class, -T, -O).")
     res.assumptions = ["an ordinary exit of the client (handshake failure, 60 s without downstream) is correct behaviour",
                        "shift-base UB excluded (GCC defines it)"]
-    n = ctx.pick(400, 12000)
+    n = ctx.pick(800, 60000)
     rng = random.Random(ctx.seed * 6007 + 6)
     plist = [gen_params(rng, i, ctx.seed) for i in range(n)]
     if ctx.replay:
